@@ -88,25 +88,8 @@ pub fn audit_mode_for(case: &Case) -> AuditMode {
 }
 
 pub fn evaluate(case: &Case, attr: Attribution) -> EvalOut {
-    // twin: no collection happens at all
-    let mut base_case = case.clone();
-    base_case.gc = GcPlan::None;
-    base_case.between_forms_gc = false;
-    let base = run_case(
-        &base_case,
-        &RunOpts {
-            mode: GcMode::Suppress,
-            cap: CAP,
-            ..Default::default()
-        },
-    );
-    for o in &base.obs {
-        match o.outcome {
-            Outcome::Diverged => return EvalOut::Discarded("baseline_diverged"),
-            Outcome::Panic(_) => return EvalOut::Discarded("baseline_panic_outside_property"),
-            _ => {}
-        }
-    }
+    // the scheduled, audited run comes first: an audit finding points at the cause and must not
+    // be masked by a baseline that the same defect already broke (ballast collections)
     let run = run_case(
         case,
         &RunOpts {
@@ -138,6 +121,25 @@ pub fn evaluate(case: &Case, attr: Attribution) -> EvalOut {
         }
         for f in &rep.findings {
             foreign.push(format!("{} {} {}", f.invariant, f.kind, f.detail));
+        }
+    }
+    // twin: no collection happens at all
+    let mut base_case = case.clone();
+    base_case.gc = GcPlan::None;
+    base_case.between_forms_gc = false;
+    let base = run_case(
+        &base_case,
+        &RunOpts {
+            mode: GcMode::Suppress,
+            cap: CAP,
+            ..Default::default()
+        },
+    );
+    for o in &base.obs {
+        match o.outcome {
+            Outcome::Diverged => return EvalOut::Discarded("baseline_diverged"),
+            Outcome::Panic(_) => return EvalOut::Discarded("baseline_panic_outside_property"),
+            _ => {}
         }
     }
     if attr == Attribution::C03 {
